@@ -85,6 +85,16 @@ fn compile(inp: &Input) -> Run {
     }
 }
 
+/// One monitored single-threaded compilation. Under ThreadSanitizer the cpu-time bound of `run_case`
+/// does not apply (instrumentation slow-down is not the library's): only the panic monitor is used.
+fn run_compile(ctx: &mut Ctx, tsan: bool, label: &dyn Fn() -> String, inp: &Input) -> Result<Run, PanicInfo> {
+    if tsan {
+        vf_core::guard(|| compile(inp))
+    } else {
+        ctx.run_case(label, None, &|| compile(inp))
+    }
+}
+
 struct Ref {
     bytes: Arc<Vec<u8>>,
     digest: u64,
@@ -370,7 +380,16 @@ pub fn run(ctx: &mut Ctx, args: &Args) {
         "inputs whose reference compilation fails or panics are outside this property and only compared across processes".into(),
         "outputs of differently configured builds (strict / rel) are recorded but not required to be equal".into(),
     ];
-    let thorough = ctx.tier.is_thorough();
+    // `--profile tsan` (extra stage "tsan", /verif/tools/stage_tsan.sh): the binary and std are built with
+    // ThreadSanitizer, which is 5-15x slower. Only the reference compilations and the thread schedules
+    // (phase 4 and the threaded part of phase 5) run, at a reduced size; a data race in the compilation
+    // path (object-id counter, caches) ends the process with a TSan report (exit 66) that the driver
+    // turns into a violation. The byte-equality oracle stays on.
+    let tsan = args.profile == "tsan";
+    if tsan {
+        ctx.assumptions.push("tsan slice: only the single-threaded references and the 16-thread schedules (with and without the counter-jumping sidecar) run, at a reduced number of rounds; ThreadSanitizer watches every access of the compilation path (std is instrumented too, -Zbuild-std)".into());
+    }
+    let thorough = ctx.tier.is_thorough() && !tsan;
     let inputs = inputs::canonical_inputs(ctx.seed, thorough);
     let fillers = inputs::filler_inputs(ctx.seed);
     let mut rng = Rng::derive(ctx.seed, "c07-schedule", ctx.shard.0 as u64 * 2 + ctx.is_strict() as u64);
@@ -389,7 +408,7 @@ pub fn run(ctx: &mut Ctx, args: &Args) {
     for inp in &inputs {
         let label = || format!("reference {}", inp.name);
         let t_ref = std::time::Instant::now();
-        let run = match ctx.run_case(&label, None, &|| compile(inp)) {
+        let run = match run_compile(ctx, tsan, &label, inp) {
             Ok(r) => r,
             Err(p) => {
                 ctx.inconclusive(format!("harness panic in reference of {}: {}:{}", inp.name, p.file, p.line));
@@ -454,7 +473,7 @@ pub fn run(ctx: &mut Ctx, args: &Args) {
 
     phase_t.push(("reference".into(), ctx.elapsed_s()));
     // ---------------- phase 1: repetition (fresh RandomState in every HashMap)
-    let reps = ctx.tier.pick(2, 4);
+    let reps = if tsan { 0 } else { ctx.tier.pick(2, 4) };
     for rep in 0..reps {
         for &i in &usable {
             let inp = &inputs[i];
@@ -468,6 +487,9 @@ pub fn run(ctx: &mut Ctx, args: &Args) {
     phase_t.push(("repeat".into(), ctx.elapsed_s()));
     // ---------------- phase 2: histories of k unrelated compilations
     for (ki, k) in [0usize, 1, 7, 1000].into_iter().enumerate() {
+        if tsan {
+            break;
+        }
         // for k = 1000 each shard takes a different slice of the inputs
         let targets: Vec<usize> = if k >= 1000 {
             let per = ctx.tier.pick(10, 40);
@@ -501,7 +523,7 @@ pub fn run(ctx: &mut Ctx, args: &Args) {
     phase_t.push(("histories".into(), ctx.elapsed_s()));
     // ---------------- phase 3: counter jumps between compilations (low range)
     let low_bits = [16u32, 24, 31, 32, 33];
-    let rounds = ctx.tier.pick(1, 3);
+    let rounds = if tsan { 0 } else { ctx.tier.pick(1, 3) };
     for round in 0..rounds {
         for &i in &usable {
             let objects = chk.refs[i].as_ref().unwrap().objects;
@@ -533,7 +555,7 @@ pub fn run(ctx: &mut Ctx, args: &Args) {
     phase_t.push(("jumps-low".into(), ctx.elapsed_s()));
     // ---------------- phase 4: threads
     let sidecar_bumps = AtomicU64::new(0);
-    let n_rounds = ctx.tier.pick(160, 1600);
+    let n_rounds = if tsan { ctx.tier.pick(24, 96) } else { ctx.tier.pick(160, 1600) };
     // light inputs for most rounds, heavy ones regularly
     let mut by_cost: Vec<usize> = usable.clone();
     by_cost.sort_by_key(|i| chk.refs[*i].as_ref().unwrap().bytes.len());
@@ -613,7 +635,7 @@ pub fn run(ctx: &mut Ctx, args: &Args) {
     // ---------------- phase 5: high id range, 2^63
     let high_bits = [40u32, 48, 53, 56];
     let mut n56 = 0;
-    let per = ctx.tier.pick(24, 96);
+    let per = if tsan { 2 } else { ctx.tier.pick(24, 96) };
     for j in 0..per {
         let i = usable[(ctx.shard.0 * 7 + j * 5 + rng.usize(usable.len())) % usable.len()];
         let objects = chk.refs[i].as_ref().unwrap().objects;
@@ -631,7 +653,7 @@ pub fn run(ctx: &mut Ctx, args: &Args) {
         let sched = format!("straddle-2^{}", bits);
         let inp = &inputs[i];
         let label = || format!("{} {}", sched, inp.name);
-        if let Ok(run) = ctx.run_case(&label, None, &|| compile(inp)) {
+        if let Ok(run) = run_compile(ctx, tsan, &label, inp) {
             if run.start < b && b <= run.end {
                 ctx.count("boundary_straddled", 1);
                 ctx.count(&format!("boundary_straddled:{}", sched), 1);
@@ -652,7 +674,7 @@ pub fn run(ctx: &mut Ctx, args: &Args) {
         let b = jump_before_boundary(63, objects.max(3), &mut rng);
         let inp = &inputs[i];
         let label = || format!("straddle-2^63 {}", inp.name);
-        if let Ok(run) = ctx.run_case(&label, None, &|| compile(inp)) {
+        if let Ok(run) = run_compile(ctx, tsan, &label, inp) {
             if run.start < b && b <= run.end {
                 ctx.count("boundary_straddled", 1);
                 ctx.count("boundary_straddled:straddle-2^63", 1);
@@ -663,16 +685,16 @@ pub fn run(ctx: &mut Ctx, args: &Args) {
             chk.check(ctx, &inputs, i, &run, "straddle-2^63", 0);
         }
         // above 2^63: sequential and threaded
-        for j in 0..ctx.tier.pick(12, 48) {
+        for j in 0..(if tsan { 2 } else { ctx.tier.pick(12, 48) }) {
             let i = usable[(j * 11 + ctx.shard.0) % usable.len()];
             random_jump(&mut rng, 40);
             let inp = &inputs[i];
             let label = || format!("above-2^63 {}", inp.name);
-            if let Ok(run) = ctx.run_case(&label, None, &|| compile(inp)) {
+            if let Ok(run) = run_compile(ctx, tsan, &label, inp) {
                 chk.check(ctx, &inputs, i, &run, "above-2^63", j as u64);
             }
         }
-        for round in 0..ctx.tier.pick(4, 16) {
+        for round in 0..(if tsan { 4 } else { ctx.tier.pick(4, 16) }) {
             let plans: Vec<ThreadPlan> = (0..N_THREADS)
                 .map(|_| ThreadPlan {
                     input: *rng.pick(&light),
@@ -699,6 +721,8 @@ pub fn run(ctx: &mut Ctx, args: &Args) {
 
     phase_t.push(("high-ids".into(), ctx.elapsed_s()));
     ctx.extra.insert("phase_end_s".into(), json!(phase_t));
-    // ---------------- cross-process comparison
-    write_and_compare_digests(ctx, args, &digest_lines);
+    // ---------------- cross-process comparison (an instrumented build is a different program: not compared)
+    if !tsan {
+        write_and_compare_digests(ctx, args, &digest_lines);
+    }
 }
